@@ -123,6 +123,8 @@ class CMSSystem(System):
                     continue
                 cfgs.append(dict(cls=cls, width=f.width, depth_=f.depth, sizing=list(sizing), strat="fnv", hitters=2,
                                  threshold=2, nkeys=3, depth=depth, amounts=[1, 2], seed=seed, cost=f.width * f.depth))
+        if prop == "C06":
+            cfgs = [c for c in cfgs if c["strat"] == "fnv"]  # the C reference implements the documented FNV-1a rule
         if seed:
             r = seed % len(cfgs)
             cfgs = cfgs[r:] + cfgs[:r]
